@@ -14,6 +14,8 @@
 EXTENDS Naturals, Integers, Sequences, FiniteSets, TLC
 
 NoOp == [k |-> "none", o |-> 0, v |-> 0]
+MaxReads == 8
+FieldOr(P, f) == IF f \in DOMAIN P THEN P[f] ELSE 0
 
 \* ---- initial state for a program record P (fields chans, nos, nnt, sems, nmx, tasks)
 TxCount(P, c) == Cardinality({t \in 1..Len(P.tasks) : \E i \in 1..Len(P.tasks[t].tx) : P.tasks[t].tx[i] = c})
@@ -26,6 +28,12 @@ Init0(P, pidx) ==
    nt |-> [x \in 1..P.nnt |-> [permit |-> FALSE, waiters |-> {}, woken |-> {}]],
    sm |-> [x \in 1..Len(P.sems) |-> [avail |-> P.sems[x], closed |-> FALSE, q |-> <<>>, granted |-> {}]],
    mx |-> [x \in 1..P.nmx |-> [holder |-> -1, q |-> <<>>]],
+   \* watch: latest value, version, sender alive, per receiver-owning task the version it has seen (-1 = no receiver)
+   wt |-> [x \in 1..FieldOr(P, "nwt") |-> [val |-> 0, ver |-> 0, tx |-> TRUE,
+                                            seen |-> [t \in 1..n |-> IF \E i \in 1..Len(P.tasks[t].wrx) : P.tasks[t].wrx[i] = x - 1 THEN 0 ELSE -1]]],
+   \* RwLock: a FIFO semaphore of MaxReads permits (a writer takes them all) plus the protected value
+   rl |-> [x \in 1..FieldOr(P, "nrwl") |-> [avail |-> MaxReads, closed |-> FALSE, q |-> <<>>, granted |-> {}, data |-> 0]],
+   rheld |-> [t \in 1..n |-> [x \in 1..FieldOr(P, "nrwl") |-> 0]],
    held |-> [t \in 1..n |-> [x \in 1..Len(P.sems) |-> 0]],
    pend |-> [t \in 1..n |-> NoOp],
    st |-> [t \in 1..n |-> "idle"],       \* idle | called | queued | done
@@ -142,6 +150,41 @@ Steps(s, t) ==
          IF m.holder = -1 /\ m.q = <<>> THEN {Done([s EXCEPT !.mx[o].holder = t], t, 0)} ELSE {Done(s, t, -2)}
     [] k = "mx_unlock" -> IF s.mx[o].holder = t THEN {Done([s EXCEPT !.mx[o] = MxGrant([@ EXCEPT !.holder = -1])], t, 0)}
                           ELSE {Done(s, t, 0)}     \* (nothing held: a failed try_lock left nothing behind)
+    \* ---- watch: receivers see the latest value and every change after their last look
+    [] k = "w_send" ->
+         LET w == s.wt[o] IN
+         IF \A u \in 1..s.n : w.seen[u] = -1 THEN {Done(s, t, -1)}        \* no receiver left
+         ELSE {Done([s EXCEPT !.wt[o].val = v, !.wt[o].ver = @ + 1], t, 0)}
+    [] k = "w_borrow" -> {Done(s, t, s.wt[o].val)}
+    [] k = "w_bupd" -> {Done([s EXCEPT !.wt[o].seen[t+1] = s.wt[o].ver], t, s.wt[o].val)}
+    [] k = "w_changed" ->
+         LET w == s.wt[o] IN
+         IF w.seen[t+1] < w.ver THEN {Done([s EXCEPT !.wt[o].seen[t+1] = w.ver], t, 0)}
+         ELSE IF ~w.tx THEN {Done(s, t, -1)} ELSE {}
+    [] k = "w_has" ->
+         LET w == s.wt[o] IN
+         IF ~w.tx THEN {Done(s, t, -1)} ELSE {Done(s, t, IF w.seen[t+1] < w.ver THEN 1 ELSE 0)}
+    [] k = "w_drop_tx" -> {Done([s EXCEPT !.wt[o].tx = FALSE], t, 0)}
+    [] k = "w_drop_rx" -> {Done([s EXCEPT !.wt[o].seen[t+1] = -1], t, 0)}
+    \* ---- RwLock: FIFO (a reader queues behind a waiting writer), readers share, a writer excludes
+    [] k \in {"rw_read", "rw_write"} ->
+         LET x == s.rl[o]  need == IF k = "rw_read" THEN 1 ELSE MaxReads IN
+         IF q THEN (IF t \in x.granted THEN {Done([s EXCEPT !.rl[o].granted = @ \ {t}, !.rheld[t+1][o] = need], t, 0)} ELSE {})
+         ELSE IF x.q = <<>> /\ need <= x.avail THEN {Done([s EXCEPT !.rl[o].avail = @ - need, !.rheld[t+1][o] = need], t, 0)}
+         ELSE {[s EXCEPT !.rl[o] = GrantFront([x EXCEPT !.q = Append(@, [t |-> t, n |-> need])]), !.st[t+1] = "queued"]}
+    [] k \in {"rw_try_read", "rw_try_write"} ->
+         LET x == s.rl[o]  need == IF k = "rw_try_read" THEN 1 ELSE MaxReads IN
+         IF x.q = <<>> /\ need <= x.avail THEN {Done([s EXCEPT !.rl[o].avail = @ - need, !.rheld[t+1][o] = need], t, 0)}
+         ELSE {Done(s, t, -2)}
+    [] k = "rw_get" -> {Done(s, t, IF s.rheld[t+1][o] > 0 THEN s.rl[o].data ELSE -9)}
+    [] k = "rw_set" -> {Done(IF s.rheld[t+1][o] = MaxReads THEN [s EXCEPT !.rl[o].data = v] ELSE s, t, 0)}
+    \* a writer becomes a reader without letting anyone else write in between
+    [] k = "rw_downgrade" ->
+         IF s.rheld[t+1][o] = MaxReads
+         THEN {Done([s EXCEPT !.rl[o] = GrantFront([@ EXCEPT !.avail = @ + (MaxReads - 1)]), !.rheld[t+1][o] = 1], t, 0)}
+         ELSE {Done(s, t, 0)}
+    [] k = "rw_unlock" ->
+         {Done([s EXCEPT !.rl[o] = GrantFront([@ EXCEPT !.avail = @ + s.rheld[t+1][o]]), !.rheld[t+1][o] = 0], t, 0)}
     [] k = "yield" -> {Done(s, t, 0)}
     [] OTHER -> {}
 
@@ -158,5 +201,8 @@ Register(s, t) ==
 CapacityRespected(s) == \A c \in 1..Len(s.ch) : s.ch[c].cap >= 0 => Len(s.ch[c].buf) <= s.ch[c].cap
 MutexExclusive(s) == \A m \in 1..Len(s.mx) : Cardinality({t \in 0..(s.n - 1) : s.mx[m].holder = t}) <= 1
 PermitsNonNegative(s) == \A x \in 1..Len(s.sm) : s.sm[x].avail >= 0
-ModelInv(s) == CapacityRespected(s) /\ MutexExclusive(s) /\ PermitsNonNegative(s)
+RwLockExclusive(s) ==
+  \A x \in 1..Len(s.rl) : LET H == {t \in 1..s.n : s.rheld[t][x] > 0} IN
+     \A t \in H : s.rheld[t][x] = MaxReads => H = {t}
+ModelInv(s) == CapacityRespected(s) /\ MutexExclusive(s) /\ PermitsNonNegative(s) /\ RwLockExclusive(s)
 =============================================================================
